@@ -104,12 +104,11 @@ Lemma sink_decision_l : forall i o e c s k tr on',
   streamInOut i o e c = POk s k tr on' ->
   (k = SnkStdout <-> (o = ADash \/ (i = ADash /\ o = AEmpty))).
 Proof.
-  intros i o e c s k tr on' H. unfold streamInOut in H.
-  destruct (open_input i e) as [[cl tr0]|[s0 tr0]]; [discriminate|].
-  destruct i, o; simpl in H;
-    try (destruct (e_create e); try discriminate; inversion H; subst; split;
-         [intros Hk; discriminate | intros [Hc|[Hc1 Hc2]]; discriminate]);
-    try (inversion H; subst; split; [intros _; auto | reflexivity]).
+  intros i o e c s k tr on' H. unfold streamInOut, open_input, create_of in H.
+  destruct i, o; simpl in H; destruct (e_stdin e), (e_open_ok e), (e_create e); simpl in H;
+    try discriminate; inversion H; subst; split; intros Hx;
+    try reflexivity; try discriminate; try (left; reflexivity); try (right; split; reflexivity);
+    try (destruct Hx as [Hx|[Hx1 Hx2]]; discriminate).
 Qed.
 
 (* totality: every (in, out, environment) yields one of the six error classes or a
